@@ -158,21 +158,21 @@ func evalC15(c c15Case) (fl *Failure) {
 	dial := func(useTLS bool) (*c15Client, error) {
 		if useTLS {
 			p := sharedPKI()
-			d := &net.Dialer{Timeout: 3 * time.Second}
+			d := &net.Dialer{Timeout: 10 * time.Second}
 			conn, err := tls.DialWithDialer(d, "tcp", fmt.Sprintf("127.0.0.1:%d", tlsPort), p.ClientConfig(p.Client("verif-client", p.Root, false)))
 			if err != nil {
 				return nil, err
 			}
 			return &c15Client{conn: conn, tls: true}, nil
 		}
-		conn, err := net.DialTimeout("tcp", fmt.Sprintf("127.0.0.1:%d", port), 3*time.Second)
+		conn, err := net.DialTimeout("tcp", fmt.Sprintf("127.0.0.1:%d", port), 10*time.Second)
 		if err != nil {
 			return nil, err
 		}
 		return &c15Client{conn: conn}, nil
 	}
 	ping := func(cl *c15Client) error {
-		v, err := roundTrip(cl.conn, resp.Cmd("PING").Bytes(), 5*time.Second)
+		v, err := roundTrip(cl.conn, resp.Cmd("PING").Bytes(), 10*time.Second)
 		if err != nil {
 			return err
 		}
@@ -211,14 +211,14 @@ func evalC15(c c15Case) (fl *Failure) {
 		}
 	}
 	expectClosed := func(cl *c15Client, who, when string) *Failure {
-		cl.conn.SetReadDeadline(time.Now().Add(2 * time.Second))
+		cl.conn.SetReadDeadline(time.Now().Add(6 * time.Second))
 		buf := make([]byte, 16)
 		n, err := cl.conn.Read(buf)
 		if err == nil {
 			return failf("c15|client-got-data", "%s: %s: %s received %q instead of a closed connection", what, when, who, buf[:n])
 		}
 		if ne, ok := err.(net.Error); ok && ne.Timeout() {
-			return failf("c15|client-still-open", "%s: %s: %s is still connected (no EOF/reset within 2s)", what, when, who)
+			return failf("c15|client-still-open", "%s: %s: %s is still connected (no EOF/reset within 6s)", what, when, who)
 		}
 		return nil
 	}
